@@ -5,6 +5,8 @@ R10.1 disallowed tags become Characters tokens (so the serializer's text escapin
 R10.2 no allow-listed element (local name, in any namespace: the serializer decides raw text by bare name) is one whose
       text the serializer writes raw or the parser reads as raw text / PLAINTEXT
 R10.3 in the serializer pipeline the sanitizer runs before optional-tag omission (nothing after it adds markup)
+R10.4 the serializer's text escaping (S1, S3) and attribute quoting / escaping (Q2, Q4) hold -- what the sanitizer hands on
+      as text or as an attribute value is read back as text / the same value
 """
 from __future__ import annotations
 
@@ -18,10 +20,12 @@ LEVEL = "other"
 TECHNIQUE = "table disjointness between the sanitizer's allow-list, the serializer's raw-text set and the parser's content-model map; pipeline order"
 CLAIM = ("Two structural preconditions of re-parse safety: a tag the sanitizer rejects leaves it as text (which the "
          "serializer escapes), and no element on the default allow-list is one whose content the serializer would write "
-         "unescaped or the parser would re-read as raw text, in any namespace; the sanitizer precedes tag omission.")
+         "unescaped or the parser would re-read as raw text, in any namespace; the sanitizer precedes tag omission; the "
+         "serializer's text escaping and attribute quoting/escaping rules (shared with C08/C07) hold, so text and attribute "
+         "values handed on by the sanitizer are read back as text and as the same values.")
 NOT_DECIDED = ("the composition itself: mutation-XSS through foreign content, integration points, table foster parenting, "
                "select, noscript with scripting on; custom allow-lists that include raw-text elements.")
-MODULES = ["filters/sanitizer.py", "serializer.py", "constants.py", "html5parser.py"]
+MODULES = ["filters/sanitizer.py", "serializer.py", "constants.py", "html5parser.py", "_tokenizer.py"]
 
 
 def run(ctx):
@@ -60,6 +64,16 @@ def run(ctx):
             detail={"order": order})
     r.check("R10.3", order[-2:] == ["sanitize", "omit_optional_tags"], "nothing-after-sanitizer", f.where,
             "a filter other than tag omission runs after the sanitizer: %s" % order)
+    # R10.4: what the sanitizer hands on as text / attribute values is re-read as text / the same value: the serializer's
+    # text escaping (S1) and attribute quoting / escaping (Q2, Q4) are preconditions of re-parse safety as well
+    from . import c07, c08
+    r.rule("S1", "text outside raw-text elements is emitted only through escape(), which covers the data-state delimiters", floor=2)
+    r.rule("S3", "the '</' check dominates raw text emission", floor=1)
+    c08.text_rules(ctx)
+    r.rule("Q2", "both needs-quotes classes contain the characters special in an unquoted value; empty value is quoted", floor=3)
+    r.rule("Q4", "'&' and the delimiter in use are escaped in attribute values on every path", floor=3)
+    c07.quoting(ctx)
+    c07.escaping(ctx)
 
 
 def thorough(ctx):
@@ -70,6 +84,9 @@ def thorough(ctx):
 def mutants():
     from ..selftest import TextMutant as T
     return [
+        T("text-unescaped", "serializer.py", "                    yield self.encode(escape(token[\"data\"]))", "                    yield self.encode(token[\"data\"])", "S1"),
+        T("attr-amp-unescaped", "serializer.py", "                        v = v.replace(\"&\", \"&amp;\")\n", "", "Q4"),
+        T("spec-class-no-gt", "serializer.py", "_quoteAttributeSpecChars = \"\".join(spaceCharacters) + \"\\\"'=<>`\"", "_quoteAttributeSpecChars = \"\".join(spaceCharacters) + \"\\\"'=<`\"", "Q2"),
         T("allow-style", "filters/sanitizer.py", "    (namespaces['html'], 'strong'),", "    (namespaces['html'], 'strong'),\n    (namespaces['html'], 'style'),", "R10.2"),
         T("allow-svg-script", "filters/sanitizer.py", "    (namespaces['html'], 'strong'),", "    (namespaces['html'], 'strong'),\n    (namespaces['svg'], 'script'),", "R10.2"),
         T("rcdata-add-pre", "constants.py", "rcdataElements = frozenset([\n    'style',", "rcdataElements = frozenset([\n    'pre',\n    'style',", "R10.2"),
